@@ -692,7 +692,7 @@ unbox = z3.Function('unbox_int', Ref, z3.IntSort())
 
 BUILTIN_NAMES = {'len', 'id', 'isinstance', 'hasattr', 'type', 'map', 'list', 'reversed', 'range', 'str', 'callable',
                  'print', 'pp', 'pprint', 'setattr', 'getattr', 'int', 'copy', 'wraps', 'super', 'enumerate',
-                 'sorted', 'set', 'True', 'False', 'next'}
+                 'sorted', 'set', 'True', 'False', 'next', 'max', 'min'}
 MODULE_NAMES = {'itertools', 'time', 'uuid', 're', 'inspect', 'json', 'stdlib_datetime', 'traceback', 'sys'}
 CLASS_ALIASES = {'HsmEvent': 'Event', 'ThreadEvent': 'ThreadEvent', 'Thread': 'Thread', 'deque': 'deque',
                  'Queue': 'Queue', 'PriorityQueue': 'PriorityQueue', 'RLock': 'RLock', 'OrderedDict': 'OrderedDict',
